@@ -178,7 +178,12 @@ func (w *world) close() {
 
 // ---- reading the history ------------------------------------------------------------------------
 
-func (w *world) readTx(id uint64) (*txRecord, error) {
+func (w *world) readTx(id uint64) (rec *txRecord, err error) {
+	defer func() {
+		if r := recover(); r != nil {
+			rec, err = nil, fmt.Errorf("PANIC inside the store while reading tx %d: %v", id, r)
+		}
+	}()
 	if err := w.st.ReadTx(id, false, w.holder); err != nil {
 		return nil, err
 	}
@@ -277,7 +282,7 @@ func (w *world) observe() *obs {
 		w.finding("state-not-last: CommittedAlh of the empty store is %x", calh[:4])
 		o.stable = false
 	}
-	if err := w.st.ReadTx(cid+1, false, w.holder); err == nil && !w.concurrent {
+	if err := w.safeRead(cid + 1); err == nil && !w.concurrent {
 		w.finding("ids-not-dense: ReadTx(%d) succeeds beyond the committed id %d", cid+1, cid)
 	}
 	w.checkAcks()
@@ -293,6 +298,25 @@ func (w *world) everTomb(k string) bool {
 		}
 	}
 	return false
+}
+
+// readHdr: ReadTxHeader with a Go panic inside the store turned into an error
+func (w *world) readHdr(id uint64, allowPrecommitted, skipIntegrityCheck bool) (h *store.TxHeader, err error) {
+	defer func() {
+		if r := recover(); r != nil {
+			h, err = nil, fmt.Errorf("PANIC inside the store while reading the header of tx %d: %v", id, r)
+		}
+	}()
+	return w.st.ReadTxHeader(id, allowPrecommitted, skipIntegrityCheck)
+}
+
+func (w *world) safeRead(id uint64) (err error) {
+	defer func() {
+		if r := recover(); r != nil {
+			err = fmt.Errorf("PANIC: %v", r)
+		}
+	}()
+	return w.st.ReadTx(id, false, w.holder)
 }
 
 func hdrBytes(h *store.TxHeader) []byte {
@@ -442,7 +466,7 @@ func (w *world) precommittedAlhs() [][32]byte {
 	n := w.st.LastPrecommittedTxID()
 	var l [][32]byte
 	for id := uint64(1); id <= n; id++ {
-		h, err := w.st.ReadTxHeader(id, true, false)
+		h, err := w.readHdr(id, true, false)
 		if err != nil {
 			break
 		}
@@ -502,7 +526,7 @@ func (w *world) runCommit(repl bool, call func(ctx context.Context) (*store.TxHe
 		}
 		if now == before+1 {
 			// an error was returned although the transaction is precommitted
-			h, err := w.st.ReadTxHeader(now, true, false)
+			h, err := w.readHdr(now, true, false)
 			if err == nil {
 				a := h.Alh()
 				return false, now, a[:], staleOf(h)
@@ -511,7 +535,7 @@ func (w *world) runCommit(repl bool, call func(ctx context.Context) (*store.TxHe
 		return false, 0, nil, nil
 	}
 	// precommitted; the call is waiting for the commit
-	h, err := w.st.ReadTxHeader(now, true, false)
+	h, err := w.readHdr(now, true, false)
 	if err != nil {
 		w.finding("precommitted-unreadable: ReadTxHeader(%d, allowPrecommitted) fails right after the precommit: %v", now, err)
 		w.pending = append(w.pending, p)
